@@ -4,6 +4,7 @@ to `format` (`sound_complete`), by mutual structural recursion on `Ty`/`Fields`
 with one step lemma per constructor.
 -/
 import DropshotModel.OpenApiDoc07
+import DropshotProofs.Lemmas.J2Oas
 namespace Dropshot.Doc07
 open Dropshot.Schema
 
@@ -234,6 +235,218 @@ theorem sound_complete : (t : Ty) → P ρ t
 theorem sound_complete_fields : (fs : Fields) → Q ρ fs
   | .nil => q_nil ρ
   | .cons name ty dflt rest => q_cons ρ name ty dflt rest (sound_complete ty) (sound_complete_fields rest)
+end
+
+/-! ### Parameter extraction -/
+
+theorem extract_err_400 : (fs : Fields) → (q : List (String × String)) → (e : Nat) →
+    extractParams fs q = .error e → e = 400
+  | .nil, q, e, h => by simp [extractParams] at h
+  | .cons name ty dflt rest, q, e, h => by
+    simp only [extractParams] at h
+    split at h
+    · split at h
+      · split at h
+        · simp at h
+        · rename_i e' he; simp at h; subst h; exact extract_err_400 rest q _ he
+      · simp at h; exact h.symm
+    · split at h
+      · simp at h; exact h.symm
+      · split at h
+        · simp at h
+        · rename_i e' he; simp at h; subst h; exact extract_err_400 rest q _ he
+
+theorem extract_missing : (fs : Fields) → (q : List (String × String)) → (n : String) → (s : JS) →
+    (n, true, s) ∈ paramList fs → lookupStr n q = none → ∀ r, extractParams fs q ≠ .ok r
+  | .nil, q, n, s, hm, _, r => by simp [paramList] at hm
+  | .cons name ty dflt rest, q, n, s, hm, hq, r => by
+    simp only [paramList, List.mem_cons] at hm
+    simp only [extractParams]
+    rcases hm with hm | hm
+    · simp at hm
+      obtain ⟨rfl, ho, _⟩ := hm
+      simp [hq, ho]
+    · have ih := extract_missing rest q n s hm hq
+      split
+      · split
+        · split
+          · rename_i r' hr'; exact absurd hr' (ih r')
+          · simp
+        · simp
+      · split
+        · simp
+        · split
+          · rename_i r' hr'; exact absurd hr' (ih r')
+          · simp
+
+
+theorem extract_ok (ρ : Env) : (fs : Fields) → (q : List (String × String)) →
+    (∀ n s, (n, true, s) ∈ paramList fs → (lookupStr n q).isSome = true) →
+    (∀ n t d, (n, t, d) ∈ fs.toList → ∀ v, lookupStr n q = some v →
+      ∃ j, readParam t v = some j ∧ (schemaOf t).valid ρ j = true ∧ formatOk t j = true) →
+    ∃ r, extractParams fs q = .ok r
+  | .nil, q, _, _ => ⟨[], rfl⟩
+  | .cons name ty dflt rest, q, h1, h2 => by
+    have ih := extract_ok ρ rest q
+      (fun n s hm => h1 n s (by simp [paramList, hm]))
+      (fun n t d hm => h2 n t d (by simp [Fields.toList, hm]))
+    obtain ⟨r, hr⟩ := ih
+    simp only [extractParams]
+    cases hl : lookupStr name q with
+    | none =>
+      cases ho : (dflt || ty.isOpt)
+      · have := h1 name (schemaOf ty) (by simp [paramList, ho])
+        simp [hl] at this
+      · simp [hr]
+    | some v =>
+      obtain ⟨j, hj1, hj2, hj3⟩ := h2 name ty dflt (by simp [Fields.toList]) v hl
+      have hd : (decodeJson ty j).isSome = true := by rw [sound_complete ρ ty j]; simp [hj2, hj3]
+      obtain ⟨x, hx⟩ := Option.isSome_iff_exists.1 hd
+      simp [decodeStr, hj1, hx, hr]
+
+
+/-! ### Derived schemas are convertible and supported -/
+
+def isOk {ε α} : Except ε α → Bool
+  | .ok _ => true
+  | .error _ => false
+
+theorem isOk_iff {ε α} (x : Except ε α) : isOk x = true ↔ ∃ a, x = .ok a := by
+  cases x <;> simp [isOk]
+
+theorem supported_withNullable (s : JS) : (withNullable s).supported = s.supported := by
+  cases s <;> simp [withNullable, JS.supported]
+
+theorem j2oas_withNullable (n : Option String) (s : JS) :
+    isOk (j2oas n (withNullable s)) = isOk (j2oas n s) := by
+  cases s with
+  | bool b => rfl
+  | obj md ty fmt en cv subs num str arr ob rf ext =>
+    simp only [withNullable, j2oas]
+    cases rf with
+    | some r => rfl
+    | none =>
+      simp only
+      split <;> simp [isOk]
+
+
+theorem convEnum_strs (vs : List String) : convEnum asStr (vs.map J.str) = .ok (vs.map some) := by
+  induction vs with
+  | nil => rfl
+  | cons v vs ih => simp [convEnum, asStr, ih]
+
+theorem j2oasAddl_some (s : JS) (h : isOk (j2oas none s) = true) : isOk (j2oasAddl (.some s)) = true := by
+  cases s with
+  | bool b => rfl
+  | obj md ty fmt en cv subs num str arr ob rf ext =>
+    obtain ⟨r, hr⟩ := (isOk_iff _).1 h
+    simp [j2oasAddl, hr, isOk]
+
+def TotalT (t : Ty) : Prop := ∀ n, isOk (j2oas n (schemaOf t)) = true
+def TotalF (fs : Fields) : Prop := isOk (j2oasProps (propsOf fs)) = true
+
+theorem total_scalar (n : Option String) :
+    isOk (j2oas n (schemaOf .bool)) = true ∧ isOk (j2oas n (schemaOf .str)) = true
+    ∧ isOk (j2oas n (schemaOf .uuid)) = true ∧ isOk (j2oas n (schemaOf .unit)) = true := by
+  refine ⟨?_, ?_, ?_, ?_⟩ <;>
+    simp [schemaOf, mkTyped, j2oas, tyArm, j2oasBoolean, j2oasString, convEnumOpt, isOk]
+
+theorem total_int (w s n) : isOk (j2oas n (schemaOf (.int w s))) = true := by
+  cases s <;> simp [schemaOf, mkTyped, j2oas, tyArm, j2oasInteger, j2oasNumeric, bound, convEnumOpt, isOk]
+
+theorem total_nonzero (w n) : isOk (j2oas n (schemaOf (.nonzero w))) = true := by
+  simp [schemaOf, mkTyped, j2oas, tyArm, j2oasInteger, j2oasNumeric, bound, convEnumOpt, isOk]
+
+theorem total_enum (vs n) : isOk (j2oas n (schemaOf (.enumOf vs))) = true := by
+  simp [schemaOf, mkTyped, j2oas, tyArm, j2oasString, convEnumOpt, convEnum_strs, isOk]
+
+theorem total_opt (t) (ih : TotalT t) : TotalT (.opt t) := by
+  intro n
+  simp only [schemaOf]
+  split
+  · obtain ⟨r, hr⟩ := (isOk_iff _).1 (ih none)
+    simp [nullableWrap, j2oas, tyArm, j2oasSubschemas, j2oasList, hr, isOk]
+  · rw [j2oas_withNullable]; exact ih n
+
+theorem total_vec (t) (ih : TotalT t) : TotalT (.vec t) := by
+  intro n
+  obtain ⟨r, hr⟩ := (isOk_iff _).1 (ih none)
+  simp [schemaOf, mkTyped, j2oas, tyArm, j2oasArray, j2oasItems, hr, isOk]
+
+theorem total_map (t) (ih : TotalT t) : TotalT (.map t) := by
+  intro n
+  obtain ⟨a, ha⟩ := (isOk_iff _).1 (j2oasAddl_some _ (ih none))
+  simp [schemaOf, mkTyped, j2oas, tyArm, j2oasObject, j2oasProps, ha, isOk]
+
+theorem total_struct (fs) (ih : TotalF fs) : TotalT (.struct fs) := by
+  intro n
+  obtain ⟨ps, hps⟩ := (isOk_iff _).1 ih
+  simp [schemaOf, mkTyped, j2oas, tyArm, j2oasObject, hps, j2oasAddl, isOk]
+
+theorem total_cons (name ty d rest) (ih1 : TotalT ty) (ih2 : TotalF rest) : TotalF (.cons name ty d rest) := by
+  obtain ⟨r, hr⟩ := (isOk_iff _).1 (ih1 none)
+  obtain ⟨ps, hps⟩ := (isOk_iff _).1 ih2
+  simp [TotalF, propsOf, j2oasProps, hr, hps, isOk]
+
+mutual
+theorem j2oas_total : (t : Ty) → TotalT t
+  | .bool => fun n => (total_scalar n).1
+  | .str => fun n => (total_scalar n).2.1
+  | .uuid => fun n => (total_scalar n).2.2.1
+  | .unit => fun n => (total_scalar n).2.2.2
+  | .int w s => total_int w s
+  | .nonzero w => total_nonzero w
+  | .enumOf vs => total_enum vs
+  | .opt t => total_opt t (j2oas_total t)
+  | .vec t => total_vec t (j2oas_total t)
+  | .map t => total_map t (j2oas_total t)
+  | .struct fs => total_struct fs (j2oas_total_fields fs)
+theorem j2oas_total_fields : (fs : Fields) → TotalF fs
+  | .nil => rfl
+  | .cons name ty d rest => total_cons name ty d rest (j2oas_total ty) (j2oas_total_fields rest)
+end
+
+def SupT (t : Ty) : Prop := t.wf = true → (schemaOf t).supported = true
+def SupF (fs : Fields) : Prop := fs.wf = true → (propsOf fs).supported = true
+
+theorem sup_opt (t) (ih : SupT t) : SupT (.opt t) := by
+  intro h
+  have := ih (by simpa [Ty.wf] using h)
+  simp only [schemaOf]
+  split
+  · simp [nullableWrap, JS.supported, tyArm, numTrivial, strTrivial, JSArr.trivial, JSObjV.trivial,
+      JSSubs.supported, JSOptList.supported, JSList.supported, JSOpt.supported, this]
+  · rw [supported_withNullable]; exact this
+
+mutual
+theorem schemaOf_supported : (t : Ty) → SupT t
+  | .bool => fun _ => by simp [schemaOf, mkTyped, JS.supported, tyArm, enumNonEmpty]
+  | .str => fun _ => by simp [schemaOf, mkTyped, JS.supported, tyArm, enumNonEmpty]
+  | .uuid => fun _ => by simp [schemaOf, mkTyped, JS.supported, tyArm, enumNonEmpty]
+  | .unit => fun h => by simp [Ty.wf] at h
+  | .int w s => fun _ => by
+    cases s <;> simp [schemaOf, mkTyped, JS.supported, tyArm, enumNonEmpty, numInI64, optAll, inI64, i64Min, i64Max]
+  | .nonzero w => fun _ => by
+    simp [schemaOf, mkTyped, JS.supported, tyArm, enumNonEmpty, numInI64, optAll, inI64, i64Min, i64Max]
+  | .enumOf vs => fun h => by
+    cases vs with
+    | nil => simp [Ty.wf] at h
+    | cons v vs => simp [schemaOf, mkTyped, JS.supported, tyArm, enumNonEmpty]
+  | .opt t => sup_opt t (schemaOf_supported t)
+  | .vec t => fun h => by
+    have := schemaOf_supported t (by simpa [Ty.wf] using h)
+    simp [schemaOf, mkTyped, JS.supported, tyArm, JSArr.supported, JSItems.supported, JSOpt.isNone, this]
+  | .map t => fun h => by
+    have := schemaOf_supported t (by simpa [Ty.wf] using h)
+    simp [schemaOf, mkTyped, JS.supported, tyArm, JSObjV.supported, JSProps.supported, JSOpt.supported, this]
+  | .struct fs => fun h => by
+    have := schemaOf_supported_fields fs (by simpa [Ty.wf] using h)
+    simp [schemaOf, mkTyped, JS.supported, tyArm, JSObjV.supported, JSOpt.supported, this]
+theorem schemaOf_supported_fields : (fs : Fields) → SupF fs
+  | .nil => fun _ => rfl
+  | .cons name ty d rest => fun h => by
+    simp only [Fields.wf, Bool.and_eq_true] at h
+    simp [propsOf, JSProps.supported, schemaOf_supported ty h.1, schemaOf_supported_fields rest h.2]
 end
 
 end Dropshot.Doc07
